@@ -605,6 +605,7 @@ func init() {
 			{Name: "python", KQuick: 4, KThor: 5, Gen: c20PyGen},
 			{Name: "go", KQuick: 4, KThor: 5, Gen: c20GoGen},
 			{Name: "go-directory-through-CommonAnalysis", KQuick: -1, KThor: -1, Gen: c20DirGen},
+			{Name: "python-directory-through-CommonAnalysis", KQuick: -1, KThor: -1, Gen: c20PyDirGen},
 		},
 	})
 }
